@@ -18,6 +18,7 @@ Host program = list of primitive ops (JSON-able dicts):
   {"op":"ping","ep":E}
   {"op":"feed","ep":E,"data":[..],"last":0|1}   queue bytes on the IN stream of endpoint E (takes no bus time)
   {"op":"sig","value":V}                    change the status signal
+  {"op":"drain","ep":E,"max":N}             acknowledged INs on stream endpoint E until it NAKs with nothing left to send
 
 Soundness (DESIGN.md section 3): rx_valid => rx_active; rx_active rises >= 1 cycle before the first byte; >= 2 idle
 cycles between packets; the host never transmits while the device does, sends a handshake only after a good
@@ -504,13 +505,25 @@ class HostBFM:
                 raw, a, b = yield from self._short_listen()
                 txn["resp"], txn["t_resp"] = M.parse_response(raw), (a, b)
                 self._finish(txn)
+            elif kind == "drain":
+                # fetch IN packets from a stream endpoint until it has nothing more to give (bounded)
+                name = self.rig.in_ports[op["ep"]]
+                for _ in range(op.get("max", 40)):
+                    yield from self._transaction(i, dict(op="in", ep=op["ep"], ack=1))
+                    if self.run.txns[-1]["resp"] == M.NAK:
+                        if not self.feed_q[name] and self.feed_cur[name] is None:
+                            break
+                        yield from self._idle(24)
+                    else:
+                        yield from self._idle(3)
             else:
                 yield from self._transaction(i, op)
             yield from self._idle(2 + self._tv() % 6)
             self.run.durations[i] = self.t - t0
         # epilogue: let the OUT FIFOs drain
         self.draining = True
-        yield from self._idle(self.drain)
+        depth = max([e.depth for e in self.model.eps.values() if hasattr(e, "depth")] or [0])
+        yield from self._idle(max(self.drain, depth + 16))
 
     def _short_listen(self):
         # after a packet that solicits nothing the host may continue after the minimum gap; a device that
